@@ -163,10 +163,69 @@ def build(reg):
             ("fold", f"errors == usefold(self.use, {INI}, obj_tree, _k)"),
             ("max", "last_use_line == maxline(self.use, _k)")])},
         short="Scope.check_use"))
+    # ------------------------------------------------------------------ line-length warnings (FortranFile.check_file)
+    def m_add_error(eng, st, node, args, kwargs):
+        kind = {"msg_line": K_LONG, "msg_comment": K_LONG_COMMENT}.get(ast.unparse(node.args[0]), 0)
+        rec = diag(eng, args[2], args[1], kind, args[3], args[4])
+        cur = st.env["emitted"]
+        st.env["emitted"] = V(TSeq(DIAG), Concat(cur.t, Unit(rec.t)))
+        return NoneV()
+    m_add_error.modifies = []
+
+    def m_comment_match(eng, st, node, args, kwargs):
+        d = eng.decls
+        rx = st.env["COMMENT_LINE_MATCH"]
+        hit = d.fun("comment_regex_matches", [smt.INT, smt.STR], smt.BOOL)(rx.t, args[0].t)
+        o = d.fresh("comment_match", sort_of(TOpt(INT), d))
+        st.assume(Eq(d.is_some(o), hit))
+        return V(TOpt(INT), o)
+
+    reg.add(Contract(
+        f"{PARSER}.check_file", prop="C07", receiver_cls="FortranFile",
+        params={"obj_tree": JSON, "max_line_length": INT, "max_comment_line_length": INT, "emitted": TSeq(DIAG)},
+        fields={"self.fixed": BOOL, "self.contents_split": TSeq(STR)},
+        locals_={"COMMENT_LINE_MATCH": INT},
+        ghost={"constants": {"FRegex.FIXED_COMMENT": 1, "FRegex.FREE_COMMENT": 2, "Severity.warn": 2}},
+        requires=[("nothing_emitted_yet", "len(emitted) == 0")],
+        ensures=[("exact", "implies(max_line_length > 0 or max_comment_line_length > 0, emitted == lenfold(self.contents_split, "
+                           "self.fixed, max_line_length, max_comment_line_length, len(self.contents_split)))"),
+                 ("no_limit_no_warning", "implies(max_line_length <= 0 and max_comment_line_length <= 0, len(emitted) == 0)")],
+        calls={"self.ast.add_error": m_add_error, "COMMENT_LINE_MATCH.match": m_comment_match},
+        abstract_stmts={"errors, diags_ast = self.ast.check_file(obj_tree)": (), "diagnostics += diags_ast": (),
+                        "for error in errors:\n    diagnostics.append(error.build(self))": ()},
+        loops={0: LoopSpec("for (i, line) in enumerate(self.contents_split)", index="_k", invariants=[
+            ("fold", "emitted == lenfold(self.contents_split, self.fixed, max_line_length, max_comment_line_length, _k)")])},
+        short="FortranFile.check_file",
+        note="the tail of check_file (aggregation of the scope checks) is abstracted: three statements that do not touch the "
+             "line-length warnings"))
+
+    # ------------------------------------------------------------------ CONTAINS / IMPLICIT placement
+    reg.add(Contract(
+        f"{SCOPE}.mark_contains", prop="C07", receiver_cls="Scope", params={"line_number": INT},
+        fields={"self.contains_start": TOpt(INT)},
+        raises=[Raises("ValueError", when="self.contains_start is not None")],
+        ensures=[("first_contains_recorded", "self.contains_start == line_number"),
+                 ("returns_only_for_the_first", "old(self.contains_start) is None")],
+        short="Scope.mark_contains"))
+
+    # ------------------------------------------------------------------ nesting
+    for cls, mod, expr in (("Subroutine", "subroutine", "self.parent is None or not (self.parent.get_type() == CLASS_TYPE_ID or "
+                                                        "self.parent.get_type() >= BLOCK_TYPE_ID)"),
+                           ("Type", "type", "self.parent is not None and self.parent.get_type() != CLASS_TYPE_ID and "
+                                            "self.parent.get_type() < BLOCK_TYPE_ID"),
+                           ("Module", "module", "self.parent is None")):
+        reg.add(Contract(
+            f"fortls.parsers.internal.{mod}.{cls}.check_valid_parent", prop="C07", receiver_cls=cls, params={},
+            fields={"self.parent": TOpt(TRef("Obj"))}, ref_methods={("Obj", "get_type"): ([], INT)}, result=BOOL,
+            ghost={"constants": {"CLASS_TYPE_ID": 4, "BLOCK_TYPE_ID": 9}},
+            ensures=[("valid_parent", f"result == ({expr})")],
+            short=f"{cls}.check_valid_parent"))
     return reg
 
 
-TARGETS = [f"{SCOPE}.check_use"]
+TARGETS = [f"{SCOPE}.check_use", f"{PARSER}.check_file", f"{SCOPE}.mark_contains",
+           "fortls.parsers.internal.subroutine.Subroutine.check_valid_parent", "fortls.parsers.internal.type.Type.check_valid_parent",
+           "fortls.parsers.internal.module.Module.check_valid_parent"]
 
 
 def extra(repo, reg, tier, seed):
@@ -233,9 +292,76 @@ def check_use_small_scope():
     return None
 
 
+def line_length_small_scope():
+    """The real FortranFile.check_file on code and comment lines around every limit (free and fixed form)."""
+    from fortls.parsers.internal.parser import FortranFile
+    from fortls.regex_patterns import FortranRegularExpressions as FRegex
+
+    class Ast:
+        def __init__(self):
+            self.got = []
+
+        def add_error(self, msg, sev, ln, sch, ech=None):
+            self.got.append((ln, sev, sch, ech, "Comment" if msg.startswith("Comment") else "Line"))
+
+        def check_file(self, obj_tree):
+            return [], []
+    lines = ["x = 1234567", "! comment 12", "", "      y = 2", "c fixed comm", "  call s()  ! trailing"]
+    for fixed in (False, True):
+        for mll in (-1, 0, 5, 10, 11, 12, 22, 23, 40):
+            for mcl in (-1, 0, 5, 11, 12, 13):
+                f = FortranFile.__new__(FortranFile)
+                f.fixed, f.contents_split, f.ast = fixed, list(lines), Ast()
+                f.check_file({}, max_line_length=mll, max_comment_line_length=mcl)
+                rx = FRegex.FIXED_COMMENT if fixed else FRegex.FREE_COMMENT
+                want = []
+                for i, ln in enumerate(lines):
+                    com = rx.match(ln) is not None
+                    lim = mcl if com else mll
+                    if 0 < lim < len(ln):
+                        want.append((i + 1, 2, lim, len(ln), "Comment" if com else "Line"))
+                if f.ast.got != want:
+                    return {"function": "FortranFile.check_file", "fixed_form": fixed, "max_line_length": mll,
+                            "max_comment_line_length": mcl, "lines": lines, "expected_warnings": want, "emitted": f.ast.got}
+    return None
+
+
+def valid_parent_small_scope():
+    from fortls.parsers.internal.subroutine import Subroutine
+    from fortls.parsers.internal.type import Type
+    from fortls.parsers.internal.module import Module
+    from fortls.constants import CLASS_TYPE_ID, BLOCK_TYPE_ID
+
+    class P:
+        def __init__(self, t):
+            self.t = t
+
+        def get_type(self, no_link=False):
+            return self.t
+    for t in [None] + list(range(-1, 17)):
+        parent = None if t is None else P(t)
+        for cls in (Subroutine, Type, Module):
+            o = cls.__new__(cls)
+            o.parent = parent
+            got = o.check_valid_parent()
+            if cls is Subroutine:
+                want = t is None or not (t == CLASS_TYPE_ID or t >= BLOCK_TYPE_ID)
+            elif cls is Type:
+                want = t is not None and t != CLASS_TYPE_ID and t < BLOCK_TYPE_ID
+            else:
+                want = t is None
+            if bool(got) != want:
+                return {"function": f"{cls.__name__}.check_valid_parent", "parent_type_id": t, "expected": want, "returned": got}
+    return None
+
+
 def search(func, tier, seed, obligation=""):
     if func.endswith("Scope.check_use"):
         return check_use_small_scope()
+    if func.endswith("FortranFile.check_file"):
+        return line_length_small_scope()
+    if func.endswith("check_valid_parent"):
+        return valid_parent_small_scope()
     from contracts import c07_gen
     return c07_gen.run(tier, seed)[0]
 
